@@ -240,6 +240,21 @@ func raceIDs(seed int64, G, iters int) (acq int, dupID int64, bad string) {
 	return
 }
 
+// raceReplaySeed returns the seed of a replay file that records a failure of the racing part.
+func raceReplaySeed(p string) (int64, bool) {
+	var body struct {
+		Case struct {
+			Kind string `json:"kind"`
+			Seed int64  `json:"seed"`
+		} `json:"case"`
+	}
+	b, err := os.ReadFile(p)
+	if err != nil || json.Unmarshal(b, &body) != nil || body.Case.Kind != "race" {
+		return 0, false
+	}
+	return body.Case.Seed, true
+}
+
 func loadCases(o *vh.Opts) (replay []histCase, corpus []histCase) {
 	read := func(p string) (histCase, bool) {
 		var body struct {
@@ -304,6 +319,16 @@ func main() {
 	if *raceOnly {
 		runRace()
 	}
+	if o.Replay != "" {
+		if sd, ok := raceReplaySeed(o.Replay); ok {
+			// replay of a racing-acquisitions failure: that part only, same seed
+			o.Seed = sd
+			runRace()
+			sum.Count(fmt.Sprintf("race|%d", sd), false)
+			sum.Write(o)
+			return
+		}
+	}
 	replay, corpus := loadCases(o)
 	for _, c := range corpus {
 		finishHist(sum, cw, runCase(c, r), "corpus", true)
@@ -324,8 +349,14 @@ func main() {
 			caching := !r.Chance(0.15)
 			finishHist(sum, cw, genHistory(r, caching, 80), "generated", c < modelled)
 		}
-		readerTrees(r, sum, cw, o.Count(12, 400))
-		runRace()
+		if len(sum.Failures) == 0 {
+			// with the node API already shown broken, the readers and the racing goroutines could
+			// build cyclic structures on which recycle recurses without end; the verdict is in
+			readerTrees(r, sum, cw, o.Count(12, 400))
+			runRace()
+		} else {
+			sum.Hist("readers-and-race-skipped-after-history-failure")
+		}
 	}
 	cw.Flush()
 	sum.CaseFiles = cw.Files
